@@ -6,6 +6,7 @@ pub mod c02;
 pub mod c03;
 pub mod c04;
 pub mod c05;
+pub mod c06;
 pub mod c07;
 pub mod c08;
 pub mod c09;
@@ -29,6 +30,7 @@ pub fn run(id: &str, tier: Tier) -> i32 {
         "C03" => c03::run(tier),
         "C04" => c04::run(tier),
         "C05" => c05::run(tier),
+        "C06" => c06::run(tier),
         "C07" => c07::run(tier),
         "C08" => c08::run(tier),
         "C09" => c09::run(tier),
@@ -57,6 +59,7 @@ pub fn replay(id: &str, case: &Value) -> i32 {
         "C03" => c03::replay(case),
         "C04" => c04::replay(case),
         "C05" => c05::replay(case),
+        "C06" => c06::replay(case),
         "C07" => c07::replay(case),
         "C08" => c08::replay(case),
         "C09" => c09::replay(case),
